@@ -38,6 +38,7 @@ type run struct {
 	shape  []string
 	// bytes of the destination attributed to (and validated with) a call
 	attributed int
+	ctorErr    error // the constructed writer does not have the documented buffer
 }
 
 func newRun(cfg wh.Config, seed int64) *run {
@@ -46,7 +47,26 @@ func newRun(cfg wh.Config, seed int64) *run {
 	w := wh.New(cfg, rec)
 	ck := wh.NewChecker(cfg)
 	ck.SkipKnown = hx.Known(wh.SigFlushNoopAfterReadFromError)
-	return &run{cfg: cfg, seed: seed, rec: rec, ex: wh.NewExec(w, rec), ck: ck}
+	r := &run{cfg: cfg, seed: seed, rec: rec, ex: wh.NewExec(w, rec), ck: ck}
+	if lo, hi, ok := wh.SizeBounds(cfg); ok {
+		// "any buffer size (default, sized, caller-supplied)": the buffer is the
+		// documented one — RawLen bytes minus a 2..14 byte header reservation.
+		if lo > 0 {
+			ck.MinSize = lo
+		}
+		if s := w.Size(); s < lo || s > hi {
+			r.ctorErr = fmt.Errorf("constructed writer has Size()=%d; the documented buffer of %d bytes (wsutil.DefaultWriteBuffer=%d while constructing) minus a %d..%d byte header reservation gives %d..%d",
+				s, wh.RawLen(cfg), defaultDuring(cfg), ws.MinHeaderSize, ws.MaxHeaderSize, lo, hi)
+		}
+	}
+	return r
+}
+
+func defaultDuring(c wh.Config) int {
+	if c.Default > 0 {
+		return c.Default
+	}
+	return wsutil.DefaultWriteBuffer
 }
 
 // known reports (and counts) a case that matches the listed known finding; the
@@ -60,6 +80,9 @@ func known(err error) bool {
 }
 
 func (r *run) do(a wh.Action) error {
+	if r.ctorErr != nil {
+		return r.ctorErr
+	}
 	r.shape = append(r.shape, a.Shape(r.ex.View()))
 	res := r.ex.Do(a)
 	r.attributed += len(res.Out)
@@ -87,6 +110,9 @@ func (r *run) note() {
 	c := r.ck
 	hx.Class(fmt.Sprintf("cfg/%s/client=%v/noflush=%v", r.cfg.Ctor, r.cfg.Client, r.cfg.NoFlush))
 	hx.Class(fmt.Sprintf("cfg/ext=%d", r.cfg.Ext))
+	if r.cfg.Default > 0 {
+		hx.Class(fmt.Sprintf("cfg/default-write-buffer-changed/%s", r.cfg.Ctor))
+	}
 	if r.cfg.Reuse != "" {
 		hx.Class(fmt.Sprintf("cfg/second-life/%s/side-changed=%v", r.cfg.Reuse, r.cfg.Client != r.cfg.PrevClient))
 	}
@@ -202,6 +228,8 @@ func exhaustiveConfigs() []wh.Config {
 		cs = append(cs, wh.Config{Ctor: "bufsize", N: 131, Client: client, Op: 1, Reuse: "reset", PrevClient: !client, PrevOp: 2, PrevUse: 3})
 		cs = append(cs, wh.Config{Ctor: "buffer", N: 7, Client: client, Op: 2, Reuse: "reset", PrevClient: !client, PrevOp: 9, PrevUse: 2 | 4})
 		cs = append(cs, wh.Config{Ctor: "get", N: 128, Client: client, Op: 1, Reuse: "pool", PrevClient: !client, PrevOp: 2, PrevUse: 1})
+		// default-size constructor with the application's own wsutil.DefaultWriteBuffer
+		cs = append(cs, wh.Config{Ctor: "new", Client: client, Op: 1, Default: 127 + m})
 	}
 	return cs
 }
